@@ -8,7 +8,7 @@ Require Import WD.Base.Prelude WD.Base.BStr WD.Model.SubEvents WD.Model.Emitter 
                WD.Model.DelayQueue WD.Model.Grouping WD.Model.Pipeline WD.Model.Contract.
 Require Import WD.Proofs.ReaderFixProofs WD.Proofs.ContractProofs WD.Proofs.TieProofs WD.Proofs.CoverProofs
                WD.Proofs.CoverOutProofs WD.Proofs.ReplayProofs WD.Proofs.ReplayOutProofs WD.Proofs.TieStrongProofs
-               WD.Proofs.CutsReaderProofs WD.Proofs.C11ReaderProofs WD.Proofs.SoundSeqProofs WD.Proofs.SoundPipeProofs
+               WD.Proofs.CutsProofs WD.Proofs.CutsReaderProofs WD.Proofs.CutsShapeProofs WD.Proofs.CutsPipeProofs WD.Proofs.C11ReaderProofs WD.Proofs.SoundSeqProofs WD.Proofs.SoundPipeProofs
                WD.Proofs.SoundLooseProofs WD.Proofs.ReplaceProofs.
 
 Local Arguments sep : simpl never.
@@ -274,6 +274,24 @@ Fixpoint burst_end (k : kst) (w : world) (ops : list op) : kst * world :=
 Lemma burst_seq_world ops : forall k1 k2 w, snd (burst_end k1 w ops) = snd (seq_end k2 w ops).
 Proof. induction ops as [|o ops IH]; intros k1 k2 w; cbn; [reflexivity|]. destruct (apply_op w o); apply IH. Qed.
 
+Lemma G_app C R1 R2 : G C R1 -> G C R2 ->
+  (forall f t c, In f R1 -> In t R2 -> nkind_of C f = KFrom c -> nkind_of C t = KTo c -> False) -> G C (R1 ++ R2).
+Proof.
+  intros H1 H2 Hs X t Y c E Hk.
+  apply app_eq_app in E as [l [[E1 E2]|[EX E2]]].
+  - destruct l as [|a l]; cbn [app] in E2.
+    + assert (Ht : In t R2) by (rewrite <- E2; now left). rewrite app_nil_r in E1. subst X.
+      destruct (H2 [] t Y c (eq_sym E2) Hk) as [H|(X' & f & El & _)]; [|destruct X'; discriminate].
+      left. intros f Hf Hkf. exact (Hs f t c Hf Ht Hkf Hk).
+    + injection E2 as <- _. exact (H1 X t l c E1 Hk).
+  - (* t lies in R2 *)
+    assert (Ht : In t R2) by (rewrite E2; apply in_app_iff; right; now left).
+    destruct (H2 l t Y c E2 Hk) as [H|(X' & f & El & Hf & HX')].
+    + left. intros f Hf. rewrite EX in Hf. apply in_app_iff in Hf as [Hf|Hf]; [intros Hkf; exact (Hs f t c Hf Ht Hkf Hk) | now apply H].
+    + right. exists (R1 ++ X'), f. split; [rewrite EX, El; now rewrite app_assoc|]. split; [exact Hf|].
+      intros f' Hf'. apply in_app_iff in Hf' as [Hf'|Hf']; [intros Hkf; exact (Hs f' t c Hf' Ht Hkf Hk) | now apply HX'].
+Qed.
+
 Section Burst.
   Variable C : cfg.
   Variable full : bool.
@@ -311,11 +329,13 @@ Section Burst.
       Forall2 chunk_ok Rs (contracts_of C full w ops) /\
       Forall (fun x => is_directory (r_mask x) = false) (concat Rs) /\ Forall (root_safe C) (concat Rs) /\
       (forall x c, In x (concat Rs) -> mv_raw x c -> (k_next_cookie kk <= c)%N) /\
-      group_batch C (concat Rs) = concat (map (group_batch C) Rs).
+      group_batch C (concat Rs) = concat (map (group_batch C) Rs) /\
+      G C (concat Rs).
   Proof.
     induction ops as [|o ops IH]; intros w kk r S Hb; cbn [seq_qs seq_end burst_ok contracts_of] in *.
     - exists r, []. cbn [concat map]. split; [intros; cbn [read_batch]; now rewrite app_nil_r|]. split; [exact S|].
-      split; [constructor|]. split; [constructor|]. split; [constructor|]. split; [intros x c []|reflexivity].
+      split; [constructor|]. split; [constructor|]. split; [constructor|]. split; [intros x c []|]. split; [reflexivity|].
+      intros X t Y c E. destruct X; discriminate.
     - destruct (apply_op w o) as [w'|] eqn:Ea; [|now apply IH].
       destruct Hb as (Hx & Hfo & Hb).
       assert (M : mask_ok C) by (unfold mask_ok; rewrite Hm; repeat split; vm_compute; discriminate).
@@ -330,7 +350,8 @@ Section Burst.
       destruct (read_batch_file C (k_queue K) Hnd r (w_fs w') (drainq K) [] r1 k1 R1 Hpd Hrd) as (Ek1 & Hp1 & ev & Eev & Hof & Hall).
       cbn [app] in Eev. subst ev k1.
       assert (Hcol := rsync_contract C full Hm w kk r o w' r1 (drainq K) R1 S Hx Ea Hrd).
-      destruct (IH w' (drainq K) r1 S1 Hb) as (r' & Rs & Hread & Send & Hch & Hfile & Hsafe & Hck & Hgb).
+      destruct (IH w' (drainq K) r1 S1 Hb) as (r' & Rs & Hread & Send & Hch & Hfile & Hsafe & Hck & Hgb & HG).
+      assert (HG1 : G C R1) by (apply W_G; exact (gs_raws_W C w kk r None o w' r1 (drainq K) R1 Hmo (RSync_JSync _ _ _ _ S) Hrd)).
       destruct (kernel_op_file_cookies w kk o w' Ea Hfo Hq) as [Hc1 Hc2]. fold K in Hc1, Hc2.
       assert (Hmask1 : Forall (fun x => is_directory (r_mask x) = false) R1).
       { eapply Forall_impl; [|exact Hof]. intros x (e & He & [Hmk _]). rewrite Hmk. rewrite Forall_forall in Hnd. now apply Hnd. }
@@ -338,7 +359,10 @@ Section Burst.
       { intros x c Hx1 Hmv. rewrite Forall_forall in Hof. destruct (Hof x Hx1) as (e & He & Hofe).
         destruct (mv_raw_rec x c e Hofe Hmv) as [Hmr Hce]. destruct (Hc1 e He Hmr) as [H1 H2]. split; [congruence | exact H2]. }
       exists r', (R1 :: Rs). cbn [concat map].
-      split; [|split; [exact Send|split; [|split; [|split; [|split]]]]].
+      assert (Hsep : forall f t c, In f R1 -> In t (concat Rs) -> nkind_of C f = KFrom c -> nkind_of C t = KTo c -> False).
+      { intros f t c Hf Ht Hkf Hkt. destruct (Hck1 f c Hf (or_introl Hkf)) as [Ec En].
+        specialize (Hck t c Ht (or_intror Hkt)). rewrite En in Hck. lia. }
+      split; [|split; [exact Send|split; [|split; [|split; [|split; [|split]]]]]].
       + intros t kx acc. rewrite (CoverProofs.read_batch_app C). rewrite (Hall t kx acc). rewrite Hread. now rewrite app_assoc.
       + constructor; [|exact Hch]. intros ct. rewrite <- Hcol. unfold delivered. f_equal.
         apply emit_all_file_ct. now apply group_batch_file.
@@ -347,9 +371,8 @@ Section Burst.
       + intros x c Hin Hmv. apply in_app_iff in Hin as [Hin|Hin].
         * destruct (Hck1 x c Hin Hmv) as [-> _]. lia.
         * specialize (Hck x c Hin Hmv). cbn [drainq kset_queue k_next_cookie] in Hck. lia.
-      + rewrite group_batch_app, Hgb; [reflexivity|].
-        intros f t c Hf Ht Hkf Hkt. destruct (Hck1 f c Hf (or_introl Hkf)) as [Ec En].
-        specialize (Hck t c Ht (or_intror Hkt)). rewrite En in Hck. lia.
+      + rewrite group_batch_app, Hgb; [reflexivity | exact Hsep].
+      + now apply G_app.
   Qed.
 End Burst.
 
@@ -444,7 +467,7 @@ Section BurstMain.
       Forall2 (fun ch ct0 => collapse ch = collapse ct0) chunks (contracts_of C full w ops).
   Proof.
     intros S Hb KB wn Hnc.
-    destruct (burst_seq C full Hfaults Hmo Hm ops w k r S Hb) as (r' & Rs & Hread & Send & Hch & Hfile & Hsafe & _ & Hgb).
+    destruct (burst_seq C full Hfaults Hmo Hm ops w k r S Hb) as (r' & Rs & Hread & Send & Hch & Hfile & Hsafe & _ & Hgb & _).
     exists r', (concat Rs), (map (fun R => emit_all full (c_recursive C) (c_root C) (content (w_fs wn)) (group_batch C R)) Rs).
     split; [rewrite Hnc; exact (Hread (w_fs wn) (drainq KB) [])|]. split.
     - unfold wn. rewrite (burst_seq_world ops k k w).
@@ -517,10 +540,163 @@ Proof.
   - apply c1_op. left. split; [|exact I]. apply co_quiet; [exact I | now apply N2].
 Qed.
 
-(* on the Pipeline model: the six AOp back to back, then the 11 records read as 2 + 2 + the rest (the first rename is cut
-   between IN_MOVED_FROM and IN_MOVED_TO: records 4 and 5), the delay, queue_events until the buffer is empty *)
-Definition burst_history : list action :=
-  map AOp burst_ops ++ [ARead 2; ARead 2; ARead 100; ATick 10] ++ repeat AEmit 14.
+(* ================================================================== 6. on the Pipeline model *)
+Section ReadsTie.
+  Variable P : pcfg.
+  Hypothesis HF : pc_filter P = None.
+  Let C := pc_reader P.
+
+  (* the reads of everything the kernel has queued (cut arbitrarily), any ticks / queue_events calls, the delay, the emits -
+     from any state with an idle buffer; no operation at the head *)
+  Theorem tie_reads s cuts L r' k' Rs acc : Forall tick_or_emit L ->
+    buffer_idle (p_buf s) -> p_stopped s = false -> (forall id, In id (map fst (p_tbl s)) -> (id < p_next s)%N) ->
+    rcut C (w_fs (p_world s)) (p_r s) (p_k s) cuts = Done (r', k', Rs) ->
+    Forall (root_safe C) (concat Rs) -> cuts_ok C [] Rs ->
+    exists nit s' obs, prun P s (map ARead cuts ++ L ++ ATick (pc_delay P) :: repeat AEmit nit) acc = Done (s', obs) /\
+      p_out s' = p_out s ++ emit_all (pc_full P) (c_recursive C) (c_root C) (content (w_fs (p_world s))) (group_batch C (concat Rs)) /\
+      p_world s' = p_world s /\ p_k s' = k' /\ p_r s' = r' /\
+      buffer_idle (p_buf s') /\ p_stopped s' = false /\ (forall id, In id (map fst (p_tbl s')) -> (id < p_next s')%N).
+  Proof.
+    intros HL Hidle Hstop Hfresh Hrc Hsafe Hok.
+    destruct s as [w k r [d rs] tbl0 nx out stopped]. cbn [p_world p_k p_r p_buf p_tbl p_next p_out p_stopped] in *.
+    subst stopped. destruct Hidle as [Hq [Hcl [Hpc [Hb [Hg [Hds Hfr]]]]]]. cbn [fst snd] in *.
+    destruct rs as [b0 g0 ds0 n0 its0 nr0]. cbn [batch grouped deleted_self items next_el] in *. subst b0 g0 ds0.
+    set (s0 := {| p_world := w; p_k := k; p_r := r; p_buf := (d, mkrst [] [] false n0 its0 nr0);
+                  p_tbl := tbl0; p_next := nx; p_out := out; p_stopped := false |}).
+    assert (HB0 : BInv P s0 (clock d) [] []).
+    { constructor; cbn [s0 p_buf p_tbl p_next p_stopped]; [|constructor|exact Hfresh|reflexivity].
+      exists d, n0, its0, nr0. split; [reflexivity|]. split; [|reflexivity].
+      constructor; [rewrite Hq; constructor | rewrite Hq; intros en [] | exact Hpc | exact Hcl | exact Hfr]. }
+    destruct (reads_loop P cuts s0 (clock d) [] [] acc r' k' Rs HB0 Hrc Hsafe Hok)
+      as (s1 & obs1 & B & Hrun1 & [(d1 & n1 & its1 & nr1 & Hb1 & HI1 & Hclk1) Hrel1 Htbl1 Hstop1] & Ew1 & Ek1 & Er1 & Eo1).
+    cbn [app] in Hrel1. set (R := concat Rs) in *. set (K := filter kept (ggo B [])) in *.
+    destruct HI1 as [H1 H2 H3 H4 H5].
+    assert (HRK : Forall2 (relI C (p_tbl s1)) K (group_batch C R)).
+    { unfold K, group_batch. apply Forall2_filter; [apply kept_put|]. apply ggo_rel; [exact Hrel1 | constructor]. }
+    assert (HSF : Forall (item_safe C) (group_batch C R)) by now apply group_batch_safe.
+    destruct (loose_loop P HF L HL s1 d1 (mkrst [] [] false n1 its1 nr1) K (group_batch C R) obs1 Hb1 H3 H4 Hstop1 H1 HRK HSF)
+      as (s2 & obs2 & d2 & K2 & raws1 & raws2 & Hrun2 & Er & Hout2 & A1 & A2 & A3 & A4 & A5 & A6 & A7 & A8 & A9 & A10 & A11 & A12 & A13 & A14).
+    set (d3 := tickd d2 (pc_delay P)).
+    set (s3 := {| p_world := p_world s2; p_k := p_k s2; p_r := p_r s2; p_buf := (d3, mkrst [] [] false n1 its1 nr1); p_tbl := p_tbl s2;
+                  p_next := p_next s2; p_out := p_out s2; p_stopped := p_stopped s2 |}).
+    assert (HR3 : Forall2 (relI (pc_reader P) (p_tbl s3)) K2 raws2) by (cbn [s3 p_tbl]; rewrite A4; exact A11).
+    destruct (emit_loop_strong P HF K2 raws2 s3 d3 (mkrst [] [] false n1 its1 nr1) (obs2 ++ [ONone]))
+      as (s' & obs & d4 & Hrun' & Hout & E1 & E2 & E3 & E4 & E5 & E6 & E7 & E8 & E9 & E10); try reflexivity; try assumption.
+    - intros en Hin. cbn [d3 tickd q clock] in *. apply A14, H2 in Hin. lia.
+    - exists (length K2), s', obs. split.
+      + match goal with |- prun P ?sx _ _ = _ => change sx with s0 end.
+        rewrite (cprun_app P (map ARead cuts)), Hrun1. rewrite (cprun_app P L), Hrun2.
+        rewrite (prun_cons P _ _ _ _ _ _ (tick_step P s2 d2 _ (pc_delay P) A7)). exact Hrun'.
+      + cbn [s3 p_out p_world p_k p_r p_tbl p_next p_stopped] in *.
+        split; [|split; [rewrite E1, A1, Ew1; reflexivity|split; [rewrite E2, A2; exact Ek1|split; [rewrite E3, A3; exact Er1|split; [|split; [exact E6|]]]]]].
+        * rewrite Hout, Hout2, Eo1, A1, Ew1. cbn [s0 p_out p_world]. rewrite <- app_assoc. f_equal.
+          rewrite Er. symmetry. apply emit_all_app_safe. rewrite Er in HSF. now apply Forall_app in HSF.
+        * rewrite E7. unfold buffer_idle. cbn [fst snd batch grouped deleted_self items next_el mkrst]. repeat split; assumption.
+        * rewrite E4, E5, A4, A5. exact Htbl1.
+  Qed.
+End ReadsTie.
+
+Lemma burst_KQ ops : forall k w, KQ k -> KQ (fst (burst_end k w ops)).
+Proof.
+  induction ops as [|o ops IH]; intros k w H; cbn [burst_end]; [exact H|].
+  destruct (apply_op w o); [apply IH; now apply kernel_op_KQ | now apply IH].
+Qed.
+
+Section BurstPipe.
+  Variable P : pcfg.
+  Hypothesis HF : pc_filter P = None.
+  Let C := pc_reader P.
+  Hypothesis Hfaults : c_faults C = [].
+  Hypothesis Hmo : c_fix_moveout C = true.
+  Hypothesis Hm : c_mask C = WATCHDOG_ALL.
+
+  (* the state after the operations of the burst: only the world and the kernel have changed *)
+  Definition after_burst (s : pstate) (ops : list op) : pstate :=
+    {| p_world := snd (burst_end (p_k s) (p_world s) ops); p_k := fst (burst_end (p_k s) (p_world s) ops); p_r := p_r s;
+       p_buf := p_buf s; p_tbl := p_tbl s; p_next := p_next s; p_out := p_out s; p_stopped := p_stopped s |}.
+
+  Lemma aops_run ops : forall s acc h2 recs,
+    (exists obs, prun P s (map AOp ops) acc = Done (after_burst s ops, obs)) /\
+    sound_along P s recs (map AOp ops ++ h2) = sound_along P (after_burst s ops) (recs ++ burst_recs (p_world s) ops) h2.
+  Proof.
+    induction ops as [|o ops IH]; intros s acc h2 recs.
+    - cbn [map prun app burst_recs]. rewrite app_nil_r. split; [exists acc; destruct s; reflexivity | destruct s; reflexivity].
+    - cbn [map app]. destruct (apply_op (p_world s) o) as [w'|] eqn:Ea.
+      + assert (Hop : pstep P s (AOp o) =
+                      Done ({| p_world := w'; p_k := kernel_op (p_k s) (w_fs (p_world s)) o; p_r := p_r s; p_buf := p_buf s;
+                               p_tbl := p_tbl s; p_next := p_next s; p_out := p_out s; p_stopped := p_stopped s |}, ONone))
+          by (cbn [pstep]; rewrite Ea; reflexivity).
+        set (s1 := {| p_world := w'; p_k := kernel_op (p_k s) (w_fs (p_world s)) o; p_r := p_r s; p_buf := p_buf s;
+                      p_tbl := p_tbl s; p_next := p_next s; p_out := p_out s; p_stopped := p_stopped s |}) in *.
+        assert (Eab : after_burst s (o :: ops) = after_burst s1 ops) by (unfold after_burst; cbn [burst_end]; rewrite Ea; reflexivity).
+        destruct (IH s1 (acc ++ [ONone]) h2 (recs ++ [oprec_of (w_fs (p_world s)) o])) as [[obs Hr] Hs].
+        split.
+        * exists obs. rewrite (prun_cons P _ _ _ _ _ _ Hop), Eab. exact Hr.
+        * cbn [sound_along]. rewrite Hop, Ea. cbn [andb]. rewrite Hs, Eab. cbn [burst_recs]. rewrite Ea.
+          cbn [s1 p_world]. now rewrite <- app_assoc.
+      + assert (Hop : pstep P s (AOp o) = Done (s, OSkip)) by (cbn [pstep]; rewrite Ea; reflexivity).
+        assert (Eab : after_burst s (o :: ops) = after_burst s ops) by (unfold after_burst; cbn [burst_end]; rewrite Ea; reflexivity).
+        destruct (IH s (acc ++ [OSkip]) h2 recs) as [[obs Hr] Hs].
+        split.
+        * exists obs. rewrite (prun_cons P _ _ _ _ _ _ Hop), Eab. exact Hr.
+        * cbn [sound_along]. rewrite Hop, Ea. cbn [andb]. rewrite Hs, Eab. cbn [burst_recs]. now rewrite Ea.
+  Qed.
+
+  (* the burst history: the operations back to back, the reads (cut arbitrarily), ticks / queue_events, the delay, the emits *)
+  Definition burst_hist (ops : list op) (cuts : list nat) (L : list action) (nit : nat) : list action :=
+    map AOp ops ++ map ARead cuts ++ L ++ ATick (pc_delay P) :: repeat AEmit nit.
+
+  Theorem burst_pipeline s ops cuts L recs :
+    RSync C (p_world s) (p_k s) (p_r s) -> buffer_idle (p_buf s) -> p_stopped s = false ->
+    (forall id, In id (map fst (p_tbl s)) -> (id < p_next s)%N) ->
+    burst_ok C (p_world s) ops ->
+    let KB := fst (burst_end (p_k s) (p_world s) ops) in let wn := snd (burst_end (p_k s) (p_world s) ops) in
+    k_queue KB = concat (seq_qs (p_k s) (p_world s) ops) ->
+    CutsPipeProofs.sum cuts = length (k_queue KB) -> Forall tick_or_emit L ->
+    exists nit s' obs chunks, prun P s (burst_hist ops cuts L nit) [] = Done (s', obs) /\
+      sound_along P s recs (burst_hist ops cuts L nit) = true /\
+      p_out s' = p_out s ++ concat chunks /\
+      Forall2 (fun ch ct0 => collapse ch = collapse ct0) chunks (contracts_of C (pc_full P) (p_world s) ops) /\
+      p_world s' = wn /\ RSync C wn (p_k s') (p_r s') /\ buffer_idle (p_buf s') /\ p_stopped s' = false /\
+      (forall id, In id (map fst (p_tbl s')) -> (id < p_next s')%N).
+  Proof.
+    intros S Hidle Hal Htbl Hb KB wn Hnc Hsum HL.
+    destruct (burst_seq C (pc_full P) Hfaults Hmo Hm ops (p_world s) (p_k s) (p_r s) S Hb)
+      as (r' & Rs & Hread & _ & _ & _ & Hsafe & _ & _ & HG).
+    destruct (burst_files_contract C (pc_full P) Hfaults Hmo Hm (p_world s) (p_k s) (p_r s) ops S Hb Hnc)
+      as (r'' & raws & chunks & Hrd & Send & Hdel & Hch).
+    fold KB wn in Hrd, Send, Hdel.
+    assert (Eraws : raws = concat Rs /\ r'' = r').
+    { assert (H := Hread (w_fs wn) (drainq KB) []). rewrite <- Hnc in H. rewrite Hrd in H. inversion H. auto. }
+    destruct Eraws as [-> ->].
+    assert (HK : KQ KB) by (apply burst_KQ; exact (GS_KQ C _ _ _ None (RSync_JSync _ _ _ _ S))).
+    destruct (rcut_eq C Hmo (w_fs wn) (p_r s) KB cuts r' (drainq KB) (concat Rs) (proj2 HK) Hsum Hrd) as (Rc & Hrc & Econc).
+    assert (Hok : cuts_ok C [] Rc) by (apply G_cuts_ok; cbn [app]; rewrite Econc; exact HG).
+    assert (Hsafe' : Forall (root_safe C) (concat Rc)) by (rewrite Econc; exact Hsafe).
+    destruct (aops_run ops s [] (map ARead cuts ++ L ++ ATick (pc_delay P) :: repeat AEmit 0) recs) as [[obs0 Hr0] _].
+    destruct (tie_reads P HF (after_burst s ops) cuts L r' (drainq KB) Rc obs0 HL Hidle Hal Htbl Hrc Hsafe' Hok)
+      as (nit & s' & obs & Hrun & Hout & E1 & E2 & E3 & Hidle' & Hal' & Htbl').
+    cbn [after_burst p_out p_world] in Hout, E1. fold wn in Hout, E1. rewrite Econc in Hout.
+    exists nit, s', obs, chunks. split; [|split; [|split; [|split; [exact Hch|split; [exact E1|split; [|split; [exact Hidle'|split; [exact Hal' | exact Htbl']]]]]]]].
+    - unfold burst_hist. rewrite (ReplayPipeProofs.prun_app P (map AOp ops)), Hr0. exact Hrun.
+    - unfold burst_hist. rewrite (proj2 (aops_run ops s [] _ recs)).
+      assert (Hnoop : Forall noop (map ARead cuts ++ L ++ ATick (pc_delay P) :: repeat AEmit nit)) by (now apply loose_rest_noop).
+      destruct (sa_noop P _ Hnoop (after_burst s ops) obs0 s' obs [] (recs ++ burst_recs (p_world s) ops) Hrun) as (new & Hn & Hsa).
+      rewrite app_nil_r in Hsa. rewrite Hsa. cbn [sound_along]. rewrite andb_true_r.
+      cbn [after_burst p_out] in Hn. rewrite Hout in Hn. apply app_inv_head in Hn. subst new.
+      unfold delivered in Hdel. unfold C in Hdel. rewrite Hdel.
+      apply forallb_forall. intros e He.
+      apply (chunks_justified _ _ (recs ++ burst_recs (p_world s) ops) chunks _ (burst_recs (p_world s) ops) Hch
+               (burst_contracts_justified C (pc_full P) ops (p_world s) Hb)); [|exact He].
+      intros rc Hrc'. apply in_app_iff. now right.
+    - unfold delivered in Hdel. unfold C in Hdel, Hout. now rewrite Hout, Hdel.
+    - rewrite E2, E3. exact Send.
+  Qed.
+End BurstPipe.
+
+(* on the Pipeline model: the six AOp back to back, then the 11 records read as 2 + 2 + 7 (the first rename is cut between
+   IN_MOVED_FROM and IN_MOVED_TO: records 4 and 5), the delay, queue_events until the buffer is empty *)
+Definition burst_history : list action := burst_hist (Px true) burst_ops [2; 2; 7]%nat [] 14.
 
 Lemma burst_example :
   exists r k, construct (cfgx true true) kinit (w_fs rp_world) = Some (r, k) /\ RSync (cfgx true true) rp_world k r /\
@@ -540,3 +716,4 @@ Proof.
   split; [vm_compute; reflexivity|]. split; [vm_compute; reflexivity|]. split; [|vm_compute; reflexivity].
   vm_compute. do 5 right. left. reflexivity.
 Qed.
+
